@@ -4,7 +4,7 @@ from __future__ import annotations
 import ast
 import operator
 
-from ..fdai import Interp, Obj, PyRaise, Unknown, explore, Imprecise, ExtRef
+from ..fdai import Interp, Obj, PyRaise, Unknown, explore, Imprecise, ExtRef, ExcVal
 from ..loader import AnchorError, dotted, is_self_attr, short, src, walk_no_nested
 from .mitomodel import table_entries
 from ..rules import where, mentions_name
@@ -125,10 +125,12 @@ class Walk:
             self._cluster = out
         return self._cluster
 
-    def run(self, o, node):
+    def run(self, o, node, ext_stubs=None):
         it = Interp(self.p, o)
         obj = it.instantiate(self.mito, [], {"silent": True})
         it.events.clear()
+        if ext_stubs:
+            it.ext_stubs.update(ext_stubs)       # only while the walker runs (the constructor may use the same builtins)
         try:
             v = it.call_fi(self.walker, [obj, node], {})
             if getattr(self.walker, "curried", False):
@@ -374,6 +376,35 @@ def run(p, led, tier):
             led.fail("C02-R4", key, where(walker, walker.node), f"{len(badk)} callable(s): {badk[0]}", witness="round(2.567, ndigits=2) evaluates to 3, Python gives 2.57")
         else:
             led.ok("C02-R4", key, where(walker, walker.node), "keyword arguments reach the callee (or the call is refused)")
+        # a callee that rejects the call is not called again in another form: its exception is the result
+        key = f"{walker.qual} ▸ Call ▸ a callee that raises is called once and its exception propagates"
+        badr, nr = [], 0
+        for fname in safe:
+            for exc_name in ("TypeError", "ValueError"):
+                for shape, args_, kws_ in (("f(a, kw=b)", [C(a)], [ast.keyword("kw", C(b))]), ("f(a, b)", [C(a), C(b)], [])):
+                    calls_seen = []
+
+                    def raising(interp, args, kwargs, _e=exc_name, _log=calls_seen):
+                        _log.append((tuple(args), dict(kwargs)))
+                        raise PyRaise(ExcVal(_e, ("callee rejects these arguments",)))
+                    stubs = {nm_: raising for nm_ in (fname, f"math.{fname}", f"operator.{fname}")}
+                    del calls_seen[:]
+                    try:
+                        rs_ = [r for _, r in explore(lambda o: W.run(o, ast.Call(ast.Name(fname, ast.Load()), args_, kws_), ext_stubs=stubs), max_paths=50)]
+                    except Imprecise:
+                        continue
+                    if not calls_seen:
+                        continue        # this table entry is not an external callable (a lambda / constant): nothing to stub
+                    nr += 1
+                    for r in rs_:
+                        if r["kind"] == "ok":
+                            badr.append(f"{fname}: {shape} with a callee raising {exc_name} evaluates to {r['value']!r}")
+                    if len(calls_seen) > len(rs_):
+                        badr.append(f"{fname}: {shape} — the callee raised {exc_name} and was called again ({len(calls_seen)} calls on {len(rs_)} path(s))")
+        if badr:
+            led.fail("C02-R4", key, where(walker, walker.node), f"{len(badr)} case(s), e.g. {badr[0]}", witness="log(8, base=2) evaluates to 3.0; Python raises TypeError")
+        elif nr:
+            led.ok("C02-R4", key, where(walker, walker.node), f"{nr} (callable, exception, call shape) cases: one call, the exception is the result")
         key = f"{walker.qual} ▸ Call ▸ **mapping argument"
         rs = W.paths(ast.Call(ast.Name(safe[0], ast.Load()), [C(a)], [ast.keyword(None, C(b))]))
         badm = [r for r in rs if r["kind"] == "ok" and not (isinstance(r["value"], Unknown) and "b" in r["value"].sym)]
@@ -381,6 +412,56 @@ def run(p, led, tier):
             led.fail("C02-R4", key, where(walker, walker.node), f"{safe[0]}(a, **b) evaluates to {badm[0]['value']!r}: the ** argument is dropped")
         else:
             led.ok("C02-R4", key, where(walker, walker.node), "a ** argument is refused (or passed)")
+
+    # ---------------- R6 what a name means does not depend on what was evaluated before
+    led.rule("C02-R6", "an expression evaluates the same way on a fresh engine and after earlier evaluations on the same engine, failed ones included (no mode left switched on)", 1)
+    met = p.find_method(mito, "metabolize")
+    MP = next((ci for lst in p.classes.values() for ci in lst if ci.name == "MetabolicPathway" and ci.module is mito.module), None)
+    if met is not None and MP is not None:
+        members = [n for n, _ in MP.enum_members()]
+        probes = ["true + 1", "[true, 2]", "7 if false else 3", "1 + 2", "not_a_name + 1"]
+        priors = [("a failing logic evaluation", "true and undefined_name", "KREBS_CYCLE"), ("a successful logic evaluation", "true and 1 < 2", "KREBS_CYCLE"),
+                  ("a failing math evaluation", "undefined_name + 1", "GLYCOLYSIS")]
+        bad6, n6 = [], 0
+
+        def outcome(r):
+            f = r.fields if isinstance(r, Obj) else {}
+            atp = f.get("atp")
+            val = atp.fields.get("value") if isinstance(atp, Obj) else None
+            return (f.get("success"), repr(val) if f.get("success") else None)
+        for pw in [m_ for m_ in ("GLYCOLYSIS", "KREBS_CYCLE", "OXIDATIVE") if m_ in members]:
+            for probe in probes:
+                def go6(o, _pw=pw, _probe=probe):
+                    it = Interp(p, o)
+                    fresh = it.instantiate(mito, [], {"silent": True})
+                    ref = outcome(it.call_fi(met, [fresh, _probe, it.enum_member(MP, _pw)], {}))
+                    outs = {}
+                    for label, expr, ppw in priors:
+                        if ppw not in members:
+                            continue
+                        eng = it.instantiate(mito, [], {"silent": True})
+                        it.call_fi(met, [eng, expr, it.enum_member(MP, ppw)], {})
+                        outs[label] = outcome(it.call_fi(met, [eng, _probe, it.enum_member(MP, _pw)], {}))
+                    return ref, outs
+                try:
+                    res6 = [r for _, r in explore(go6, max_paths=60)]
+                except Imprecise as e:
+                    led.info(f"history row {probe!r} on {pw} not interpreted ({e})")
+                    continue
+                except PyRaise as e:
+                    bad6.append(f"{probe!r} on {pw}: metabolize raises {e.exc!r}")
+                    continue
+                for ref, outs in res6:
+                    for label, got in outs.items():
+                        n6 += 1
+                        if got != ref:
+                            bad6.append(f"{probe!r} on {pw}: {ref} on a fresh engine, {got} after {label} on the same engine")
+        key = "Mitochondria.metabolize ▸ same result on a fresh engine and after earlier evaluations"
+        if bad6:
+            led.fail("C02-R6", key, where(met, met.node), f"{len(set(bad6))} case(s), e.g. {sorted(set(bad6))[0]}", path=sorted(set(bad6))[:6],
+                     witness="metabolize('true and 1/0 > 1', KREBS_CYCLE) fails; then metabolize('true + 1', GLYCOLYSIS) succeeds with 2 (Python: NameError)")
+        elif n6:
+            led.ok("C02-R6", key, where(met, met.node), f"{n6} comparisons: 5 probe expressions × 3 pathways × 3 kinds of earlier evaluation")
 
     led.extra["programs"] = counter["programs"]
     led.extra["paths_compared_with_reference"] = counter["paths"]
